@@ -433,11 +433,16 @@ var deepFiles = []file{
 	{segs: []string{"modules", "mymod", "types", "sub", "deep", "bad.pp"}, body: body{kind: "malformed", line: 3}},
 	{segs: []string{"modules", "mymod", "types", "sub.pp"}, body: body{kind: "alias", name: "Mymod::Sub"}},
 	{segs: []string{"modules", "mymod", "types", "set.pp"}, body: body{kind: "typeset", name: "Mymod::Set", types: []string{"Ta", "Tb"}}},
+	{segs: []string{"env", "types", "geo", "shapes.pp"}, body: body{kind: "typeset", name: "Geo::Shapes", types: []string{"Circle", "Square", "Tri"}}},
+	{segs: []string{"modules", "other", "types", "init_typeset.pp"}, body: body{kind: "typeset", name: "Other", types: []string{"Ta", "Tb"}}},
+	{segs: []string{"modules", "other", "types", "sub", "set.pp"}, body: body{kind: "typeset", name: "Other::Sub::Set", types: []string{"Leaf"}}},
 }
 
 var deepNames = []string{"Ns::A::B", "Ns::A::B", "Ns::A", "Ns::A::B::C::D", "Ns::Bad::X", "Ns::Bad", "Top::X::Y", "Top",
 	"MYMOD::sub::Deep::LEAF", "Mymod::Sub", "Mymod::Sub::Deep", "Mymod::Sub::Deep::Leaf::X", "Mymod::Sub::Deep::Bad",
-	"Mymod::Sub::Deep::Bad::Y", "Mymod::Set::Ta::X", "Mymod::Set::Tb", "Mymod::Set", "Mymod::Set::Nope::Z"}
+	"Mymod::Sub::Deep::Bad::Y", "Mymod::Set::Ta::X", "Mymod::Set::Tb", "Mymod::Set", "Mymod::Set::Nope::Z",
+	"Geo::Shapes::SQUARE", "GEO::shapes", "Geo::Shapes::Tri", "Geo::Shapes::Nope", "Other::Sub::Set::Leaf", "OTHER", "Other::Tb",
+	"Other::Sub::Set", "Other::Nope"}
 
 func genDeep(emit func(spec)) {
 	var ls, rev []lookup
@@ -445,9 +450,10 @@ func genDeep(emit func(spec)) {
 		ls = append(ls, lookup{op: "load", name: n})
 		rev = append([]lookup{{op: "load", name: n}}, rev...)
 	}
-	for _, via := range []string{"g", "d", "e", "m:mymod", "f:mymod"} {
+	for _, via := range []string{"g", "d", "e", "m:mymod", "f:mymod", "m:other", "f:other"} {
 		for _, lk := range [][]lookup{ls, rev} {
 			emit(spec{mods: []string{"other", "mymod"}, files: deepFiles, via: via, lookups: lk})
+			emit(spec{mods: []string{"other", "mymod"}, files: deepFiles[7:], via: via, lookups: lk})
 			// without the grandparent / parent files: the same names over a sparser tree
 			emit(spec{mods: []string{"other", "mymod"}, files: []file{deepFiles[0], deepFiles[3], deepFiles[6]}, via: via, lookups: lk})
 			emit(spec{mods: []string{"other", "mymod"}, files: []file{deepFiles[1], deepFiles[4], deepFiles[5]}, via: via, lookups: lk})
